@@ -3215,7 +3215,12 @@ RESUME_VALIDATE_CERTS:
         rc = -1;  /* Force the check on existence of user callback */
     }
 
-    if (rc < 0)
+    /*  matrixValidateCertsExt reports some failures (validity dates, an issuer
+        without keyCertSign, a key identifier mismatch, the verification depth
+        test above) only through the authStatus of the certificates, with a
+        non-negative return code.  They have been converted to an alert in
+        ssl->err above and are no less a failure of internal validation. */
+    if (rc < 0 || ssl->err != SSL_ALERT_NONE)
     {
         psTraceInfo("WARNING: cert did not pass internal validation test\n");
         /*      Cert auth failed.  If there is no user callback issue fatal alert
